@@ -1130,6 +1130,54 @@ fn retained_publish_racing_a_new_subscription_is_delivered_once() {
     report(name, "C15", "QoS 0/1 x same client in one batch / two clients in one router round", cases, fail);
 }
 
+/// C15 with message expiry: a retained message that has not expired yet is replayed to every new matching subscription,
+/// however many subscriptions (of anybody, on any filter) were made in the meantime.  Uses real time (about 2.3 s).
+// @native props=C15 tier=quick fn=DataLog::read_retained_messages (expiry bookkeeping of the retained store)
+#[test]
+fn unexpired_retained_messages_survive_other_peoples_subscriptions() {
+    let name = "rumqttd::DataLog::read_retained_messages#unexpired_retained_message_is_replayed";
+    let mut cases = 0u64;
+    let mut fail: Option<String> = None;
+    let with_expiry = |topic: &str, payload: &str, secs: u32| -> Packet {
+        match publish(topic, 0, 0, payload, true) {
+            Packet::Publish(x, _) => Packet::Publish(x, Some(crate::protocol::PublishProperties { payload_format_indicator: None, message_expiry_interval: Some(secs), topic_alias: None, response_topic: None, correlation_data: None, user_properties: vec![], subscription_identifiers: vec![], content_type: None })),
+            other => other,
+        }
+    };
+    // all three routers share the waiting time
+    let mut routers = vec![];
+    for others in 0..3usize {
+        let mut r = new_router();
+        let p = connect(&mut r, "p", true).unwrap();
+        send(&mut r, &p, vec![with_expiry("st/door", "open", 4), with_expiry("st/short", "gone-soon", 1), publish("st/plain", 0, 0, "no-expiry", true)]);
+        routers.push((others, r));
+    }
+    std::thread::sleep(std::time::Duration::from_millis(1150));
+    for (others, r) in routers.iter_mut() {
+        // other people's new subscriptions, on unrelated and on matching filters
+        for k in 0..*others {
+            let o = connect(r, &format!("o{}", k), true).unwrap();
+            send(r, &o, vec![subscribe(1, &[(if k == 0 { "unrelated/topic" } else { "st/#" }, 0)])]);
+            let _ = receive_all(r, &o);
+        }
+    }
+    std::thread::sleep(std::time::Duration::from_millis(1150));
+    for (others, r) in routers.iter_mut() {
+        cases += 1;
+        let c = connect(r, "late", true).unwrap();
+        send(r, &c, vec![subscribe(1, &[("st/+", 0)])]);
+        let mut got: Vec<(String, String, bool)> = receive_all(r, &c).into_iter().map(|g| (g.0, g.1, g.3)).collect();
+        got.sort();
+        // st/door is 2.3 s old and lives 4 s; st/short (1 s) has expired; st/plain never expires
+        let want = vec![("st/door".to_string(), "open".to_string(), true), ("st/plain".to_string(), "no-expiry".to_string(), true)];
+        if got != want {
+            fail = Some(format!("input=[retained st/door (expiry 4 s), st/short (expiry 1 s), st/plain; after 1.1 s {} other new subscription(s); after 2.3 s a new subscription st/+] detail=[received {:?}, expected {:?}]", others, got, want));
+            break;
+        }
+    }
+    report(name, "C15", "0/1/2 other new subscriptions (unrelated filter, matching filter) between the retained publishes and the subscription under test; expiry 4 s / 1 s / none, real time", cases, fail);
+}
+
 // ---------------------------------------------------------------------------------------------
 // C17: shared subscriptions
 // ---------------------------------------------------------------------------------------------
